@@ -318,6 +318,28 @@ struct VectorDenom {
             }
             check_block(plan, raw, dl, "", 0);
         }
+        // (a') partially uniform vectors: lanes [0,k) hold one divisor and lanes [k,W) another, for every split k, and all lanes equal except one, for every
+        // lane (a constructor that takes a short cut when 'all' divisors are equal but looks at some of the lanes only: seed C15-c)
+        {
+            const T cand[] = {T(3), T(7), T(10), T(77), std::numeric_limits<T>::max(), T(std::numeric_limits<T>::max() / 3 * 2 + 1)};
+            const unsigned NC = sizeof(cand) / sizeof(cand[0]);
+            for (unsigned ia = 0; ia < NC; ++ia)
+                for (unsigned ib = 0; ib < NC; ++ib) {
+                    if (ia == ib || (!opt().thorough && (ia + ib) % 2 == 0 && W > 16)) continue;
+                    for (unsigned pat = 1; pat < 2 * W; ++pat) {
+                        T dl[W];
+                        if (pat < W) for (unsigned i = 0; i < W; ++i) dl[i] = i < pat ? cand[ia] : cand[ib];   // split at lane pat
+                        else for (unsigned i = 0; i < W; ++i) dl[i] = i == pat - W ? cand[ib] : cand[ia];      // only lane pat - W differs
+                        Ctor c;
+                        c.d = from_lanes<V>(dl);
+                        c.out = raw;
+                        int sig = guarded(c);
+                        book.ok("construct", true);
+                        if (sig) { book.fail("construct", pair_key(T(pat), dl[0], 95), "signal " + u64s(std::uint64_t(sig)) + " constructing from a partially uniform divisor vector"); continue; }
+                        check_block(plan, raw, dl, "mixed_", 200);
+                    }
+                }
+        }
         // (b) broadcast from a scalar denominator: same results as the vector {d,d,...} and as the model
         if (!std::is_constructible<DV, DS>::value) {
             book.ok("broadcast_construct", true);
